@@ -44,6 +44,10 @@ func byIDDesc(ns []graph.Node) {
 }
 
 func checkSCC(c sccCase) *vk.Failure {
+	return withIndet(c.G, func(g G) *vk.Failure { c2 := c; c2.G = g; return checkSCC1(c2) })
+}
+
+func checkSCC1(c sccCase) *vk.Failure {
 	c.Dir = true
 	m := model(c.G)
 	n := m.n
@@ -368,7 +372,7 @@ func TestDirSCC(t *testing.T) {
 		return sccCase{G: g, Q: uint64(i)}
 	}, checkSCC)
 	vk.Run(t, "dir-scc", vk.Opts{Quick: 8000, Thorough: 150000, NoCrumb: true}, func(t *rapid.T) sccCase {
-		g := drawG(t, true, 40, dirClasses, []int{contOrdered, contOrdered, contSimple, contMulti})
+		g := drawG(t, true, 40, dirClasses, []int{contOrdered, contOrdered, contSimple, contMulti, contIndet})
 		return sccCase{G: g, Q: rapid.Uint64().Draw(t, "q")}
 	}, checkSCC)
 }
@@ -454,6 +458,10 @@ func rotateMin(c []int) []int {
 }
 
 func checkDirCycles(c cycCase) *vk.Failure {
+	return withIndet(c.G, func(g G) *vk.Failure { return checkDirCycles1(cycCase{g}) })
+}
+
+func checkDirCycles1(c cycCase) *vk.Failure {
 	c.Dir = true
 	m := model(c.G)
 	want, ok := elementaryCycles(m, 60000)
@@ -533,11 +541,11 @@ func TestDirCycles(t *testing.T) {
 		// Dense classes stay at <= 7 nodes (the complete digraph on 7 nodes has
 		// 2365 elementary cycles); the sparse-like classes go to 40 nodes.
 		if rapid.IntRange(0, 2).Draw(t, "small") > 0 {
-			return cycCase{drawG(t, true, 7, dirClasses, []int{contOrdered, contSimple})}
+			return cycCase{drawG(t, true, 7, dirClasses, []int{contOrdered, contSimple, contIndet})}
 		}
 		if rapid.Bool().Draw(t, "mid") {
-			return cycCase{drawG(t, true, 20, []string{"sparse", "comps"}, []int{contOrdered, contSimple})}
+			return cycCase{drawG(t, true, 20, []string{"sparse", "comps"}, []int{contOrdered, contSimple, contIndet})}
 		}
-		return cycCase{drawG(t, true, 40, []string{"dag", "cycle", "tree"}, []int{contOrdered, contSimple})}
+		return cycCase{drawG(t, true, 40, []string{"dag", "cycle", "tree"}, []int{contOrdered, contSimple, contIndet})}
 	}, checkDirCycles)
 }
